@@ -433,7 +433,11 @@ fn views(expected: String, observed: String) -> (String, String) {
     let cut = |s: &str| -> String {
         let part: String = s.chars().skip(start).take(MAX).collect();
         let more = if s.chars().count() > start + MAX { "..." } else { "" };
-        format!("[the first {start} characters are equal] ...{part}{more}")
+        if start == 0 {
+            format!("{part}{more}")
+        } else {
+            format!("[the first {start} characters are equal] ...{part}{more}")
+        }
     };
     (cut(&expected), cut(&observed))
 }
